@@ -15,6 +15,7 @@ import (
 
 	"github.com/LiskHQ/lisk-engine/pkg/blockchain"
 	"github.com/LiskHQ/lisk-engine/pkg/consensus"
+	csync "github.com/LiskHQ/lisk-engine/pkg/consensus/sync"
 	"github.com/LiskHQ/lisk-engine/pkg/p2p"
 
 	"verif/sim/simcontext"
@@ -78,6 +79,10 @@ type Hooks struct {
 	// BeforeGossip is called when a gossip payload is about to be handed to node `to` (outside any node step: the
 	// hook may run node steps of its own, e.g. to offer the node something else first).
 	BeforeGossip func(to *Node, from p2p.PeerID, topic string, data []byte)
+	// BeforeProcess / Processed bracket every block the consensus loop of node n takes from its queue: the tip before,
+	// the error process() returned and the number of sync requests it sent.
+	BeforeProcess func(n *Node)
+	Processed     func(n *Node, b *blockchain.Block, from p2p.PeerID, tipBefore *blockchain.BlockHeader, err error, rpcs int)
 	// BeforeNodeStep is called before every call into node n.
 	BeforeNodeStep func(n *Node, what string)
 }
@@ -109,6 +114,8 @@ type Sim struct {
 	cur      *Node
 	rpcMu    sync.Mutex
 	rpcPlan  []int // pre-drawn fault codes for the RPCs of the current node step
+	rpcLie   []int // pre-drawn lies of a Byzantine responder (-1: honest answer; d: a block d below the requester's finalized height)
+	rpcPos   []int // pre-drawn positions (per mille of the payload) for truncation / bit flip
 	rpcNext  int
 	rpcCount int
 	livelock *Livelock
@@ -125,6 +132,9 @@ type Sim struct {
 }
 
 func simrtNowUnix() int64 { return simrt.C.NowTrue().Unix() }
+
+// simrtNowUnixFor is what node n's (possibly skewed) clock reads.
+func simrtNowUnixFor(n *Node) int64 { return simrt.C.NowTrue().Add(n.Skew).Unix() }
 
 func NewSim(t *rapid.T, p *ChainParams, vals []*Validator) *Sim {
 	s := &Sim{T: t, P: p, Vals: vals, group: map[p2p.PeerID]int{}, seen: map[p2p.PeerID]map[[32]byte]bool{}, banned: map[p2p.PeerID]map[p2p.PeerID]bool{},
@@ -304,6 +314,31 @@ func (s *Sim) nextRPCFault() int {
 	return f
 }
 
+// rpcLieNow returns the pre-drawn lie of the current request (-1: none).
+func (s *Sim) rpcLieNow() int {
+	s.rpcMu.Lock()
+	defer s.rpcMu.Unlock()
+	if i := s.rpcNext - 1; i >= 0 && i < len(s.rpcLie) {
+		return s.rpcLie[i]
+	}
+	return -1
+}
+
+// rpcOffset turns the pre-drawn position of the current fault (per mille of the payload) into an offset.
+func (s *Sim) rpcOffset(n int) int {
+	s.rpcMu.Lock()
+	defer s.rpcMu.Unlock()
+	pm := 333
+	if i := s.rpcNext - 1; i >= 0 && i < len(s.rpcPos) {
+		pm = s.rpcPos[i]
+	}
+	o := n * pm / 1000
+	if o >= n {
+		o = n - 1
+	}
+	return o
+}
+
 // Livelock is the panic value that unwinds a node step which keeps issuing requests without end.
 type Livelock struct {
 	Procedure string
@@ -353,14 +388,28 @@ func (s *Sim) Request(ctx context.Context, from, to p2p.PeerID, procedure string
 		} else if e := s.extraByPeer(to); e != nil {
 			respData, respErr = e.HandleRPC(from, procedure, data)
 		}
+		if lie := s.rpcLieNow(); lie >= 0 && respErr == nil && procedure == "getHighestCommonBlock" {
+			// a Byzantine peer answers with a block far below the fork point: one of the requester's own blocks
+			// at or below its finalized height (the reply is not tied to the ids that were asked about)
+			if rn, an := s.nodeByPeer(to), s.nodeByPeer(from); rn != nil && rn.IsAdversary && an != nil {
+				h := int(an.Finalized()) - lie
+				if h < 0 {
+					h = 0
+				}
+				if hd, err := an.Chain.DataAccess().GetBlockHeaderByHeight(uint32(h)); err == nil {
+					respData = (&csync.GetHighestCommonBlockResponse{ID: hd.ID}).Encode()
+					s.count("byz_lying_common_block")
+				}
+			}
+		}
 		if respErr == nil && len(respData) > 0 {
 			switch fault {
 			case rpcTruncate:
-				respData = append([]byte(nil), respData[:len(respData)/2]...)
+				respData = append([]byte(nil), respData[:s.rpcOffset(len(respData))]...)
 				s.count("rpc_truncated")
 			case rpcFlip:
 				respData = append([]byte(nil), respData...)
-				respData[len(respData)/3] ^= 0x10
+				respData[s.rpcOffset(len(respData))] ^= 0x10
 				s.count("rpc_bitflip")
 			}
 		}
@@ -389,13 +438,30 @@ func (s *Sim) planRPC() {
 	s.rpcNext = 0
 	s.rpcCount = 0
 	s.rpcPlan = s.rpcPlan[:0]
+	s.rpcLie = s.rpcLie[:0]
 	s.rpcMu.Unlock()
+	if s.Adv != nil && s.Adv.Enabled {
+		lies := make([]int, 12)
+		for i := range lies {
+			lies[i] = -1
+			if simkit.Chance(s.T, "rpclie", 1, 5) {
+				lies[i] = []int{0, 1, 2, 5}[simkit.Int(s.T, "rpcliedepth", 0, 3)]
+			}
+		}
+		s.rpcMu.Lock()
+		s.rpcLie = lies
+		s.rpcMu.Unlock()
+	}
 	if s.Net.RPCFailPct == 0 && s.Net.RPCCorruptPct == 0 {
 		return
 	}
 	plan := make([]int, 12)
+	pos := make([]int, 12)
 	for i := range plan {
 		r := simkit.Int(s.T, "rpcfault", 0, 99)
+		if r < s.Net.RPCFailPct+s.Net.RPCCorruptPct && r >= s.Net.RPCFailPct {
+			pos[i] = simkit.Int(s.T, "rpcfaultpos", 0, 999)
+		}
 		switch {
 		case r < s.Net.RPCFailPct/2:
 			plan[i] = rpcTimeout
@@ -409,6 +475,7 @@ func (s *Sim) planRPC() {
 	}
 	s.rpcMu.Lock()
 	s.rpcPlan = plan
+	s.rpcPos = pos
 	s.rpcMu.Unlock()
 }
 
@@ -462,9 +529,25 @@ func (s *Sim) Step(n *Node, what string, fn func()) {
 func (s *Sim) collect(n *Node, what string) {
 	// process whatever the step queued for the consensus loop (internal blocks, received blocks)
 	for n.Up {
-		did, _ := n.Exec.VerifStep()
+		var tipBefore *blockchain.BlockHeader
+		if s.Hooks.Processed != nil {
+			tipBefore = n.Tip()
+			if s.Hooks.BeforeProcess != nil {
+				s.Hooks.BeforeProcess(n)
+			}
+		}
+		s.rpcMu.Lock()
+		rpcBefore := s.rpcCount
+		s.rpcMu.Unlock()
+		did, blk, from, err := n.Exec.VerifStepBlock()
 		if !did {
 			break
+		}
+		if s.Hooks.Processed != nil && n.Up {
+			s.rpcMu.Lock()
+			rpcs := s.rpcCount - rpcBefore
+			s.rpcMu.Unlock()
+			s.Hooks.Processed(n, blk, from, tipBefore, err, rpcs)
 		}
 	}
 	for _, m := range n.DrainEvents() {
